@@ -154,7 +154,8 @@ Proof.
   set (s1 := match locked s with Some _ => if stale_lock s then unlock s else s | None => s end).
   assert (C1 : height s1 = height s /\ log s1 = log s /\ pblock s1 = pblock s /\
                (locked s1 = locked s \/ locked s1 = None)).
-  { subst s1. destruct (locked s); [|repeat split; auto]. destruct (stale_lock s); repeat split; auto. }
+  { subst s1. destruct (locked s) eqn:El0; [|repeat split; auto].
+    destruct (stale_lock s); repeat split; cbn; auto. }
   clearbody s1. destruct C1 as (A1 & A2 & A3 & A4).
   assert (Hp : forall x, pblock s1 = Some x -> pblock s = Some x \/ locked s = Some x).
   { intros x Hx. left. congruence. }
